@@ -130,6 +130,7 @@ func TestC07_RoundTripRandom(t *testing.T) {
 		n := rapid.OneOf(
 			gen.LenClass(4096, 32, 96, 224, 256),
 			rapid.IntRange(1, 64),
+			rapid.IntRange(97, 224), // 4..7 KDF blocks
 			rapid.IntRange(1, 4096),
 		).Draw(rt, "len")
 		if n < 1 {
